@@ -79,6 +79,8 @@ def run(ctx):
     scs += [scen.pair_in_one_message(r2) for _ in range(40 if quick else 1500)]
     r3 = random.Random(ctx.seed * 7919 + 106)
     scs += [scen.two_channels_one_instant(r3) for _ in range(30 if quick else 1000)]
+    rwi = random.Random(ctx.seed * 7919 + 206)     # a stream of its own
+    scs += [scen.wildcard_instance(rwi) for _ in range(30 if quick else 1000)]
     stackprop.run_scenarios(ctx, scs, 3006, CODES, what="server subscriptions")
 
 
